@@ -472,13 +472,36 @@ func (g *c09GenState) thingOp(r *rng, kind, id string, emptyAlias bool) string {
 	if r.chance(1, 2) {
 		dep = toWire(g.pickB(r))
 	}
+	roles := c09Subset(r, c09Roles)
+	if emptyAlias {
+		// the EMPTY STRING in every nullable referencing field: create / update accept it as "no reference"
+		// (GetTypeAndValue yields a nil value for it); an empty list element is refused by the index and fails the op
+		if r.chance(1, 4) {
+			owner = "-"
+		}
+		if r.chance(1, 4) {
+			dep = "-"
+		}
+		if r.chance(1, 4) {
+			boss = "-"
+		}
+		if r.chance(1, 12) {
+			roles = append(roles, "")
+		}
+	}
 	name := pick(r, c09Names)
 	if r.chance(2, 3) {
 		// mostly a name derived from the id, so that creations rarely collide
 		name = "n" + id[1:]
 	}
 	op := fmt.Sprintf("%s %s %s %s %s %s %s %s %s %s", kind, toWire(id), toWire(name), alias,
-		c09List(c09Subset(r, c09Roles)), owner, toWire(g.pickB(r)), dep, toWire(g.pickB(r)), boss)
+		c09List(roles), owner, toWire(g.pickB(r)), dep, toWire(g.pickB(r)), boss)
+	optE := func(pool []string) string {
+		if emptyAlias && r.chance(1, 4) {
+			return "-"
+		}
+		return c09OptPick(r, pool, 1, 2)
+	}
 	switch kind {
 	case "cX", "uX":
 		// through the extended child store: badge (mostly derived from the id, so that creations rarely collide),
@@ -487,14 +510,14 @@ func (g *c09GenState) thingOp(r *rng, kind, id string, emptyAlias bool) string {
 		if r.chance(2, 3) {
 			badge = "g" + id[1:]
 		}
-		op += fmt.Sprintf(" %s %s %s %s", toWire(badge), c09OptPick(r, c09Tags, 1, 2), toWire(g.pickB(r)),
+		op += fmt.Sprintf(" %s %s %s %s", toWire(badge), optE(c09Tags), toWire(g.pickB(r)),
 			c09List(c09Subset(r, c09Caps)))
 	case "cP", "uP":
 		code := pick(r, c09Codes)
 		if r.chance(2, 3) {
 			code = "k" + id[1:]
 		}
-		op += fmt.Sprintf(" %s %s %s", toWire(code), c09OptPick(r, c09Nicks, 1, 2), c09List(c09Subset(r, c09Marks)))
+		op += fmt.Sprintf(" %s %s %s", toWire(code), optE(c09Nicks), c09List(c09Subset(r, c09Marks)))
 	}
 	return op
 }
@@ -514,6 +537,19 @@ func c09ThingKind(r *rng, verb string) string {
 
 func c09GenHistory(r *rng, n int, emptyAlias bool) []string {
 	var h []string
+	labelE := func() string {
+		if emptyAlias && r.chance(1, 4) {
+			return "-"
+		}
+		return c09OptPick(r, c09Labels, 1, 2)
+	}
+	linksE := func(pool []string) []string {
+		l := c09Subset(r, pool)
+		if emptyAlias && r.chance(1, 10) {
+			l = append(l, "") // a link to the id "": no such entity, SetLinks fails and the op is ignored
+		}
+		return l
+	}
 	g := &c09GenState{liveA: map[string]bool{}, liveB: map[string]bool{}}
 	// owners first, so that things can be created at all
 	for _, b := range c09BIds {
@@ -553,14 +589,14 @@ func c09GenHistory(r *rng, n int, emptyAlias bool) []string {
 			h = append(h, "dB "+toWire(pick(r, c09BIds)))
 		case k < 14:
 			id := pick(r, c09BIds)
-			h = append(h, fmt.Sprintf("cB %s %s", toWire(id), c09OptPick(r, c09Labels, 1, 2)))
+			h = append(h, fmt.Sprintf("cB %s %s", toWire(id), labelE()))
 			g.liveB[id] = true
 		case k < 15:
-			h = append(h, fmt.Sprintf("uB %s %s", toWire(g.pickB(r)), c09OptPick(r, c09Labels, 1, 2)))
+			h = append(h, fmt.Sprintf("uB %s %s", toWire(g.pickB(r)), labelE()))
 		case k < 18:
-			h = append(h, fmt.Sprintf("lA %s %s", toWire(g.pickA(r)), c09List(c09Subset(r, c09BIds))))
+			h = append(h, fmt.Sprintf("lA %s %s", toWire(g.pickA(r)), c09List(linksE(c09BIds))))
 		default:
-			h = append(h, fmt.Sprintf("lB %s %s", toWire(g.pickB(r)), c09List(c09Subset(r, c09AIds))))
+			h = append(h, fmt.Sprintf("lB %s %s", toWire(g.pickB(r)), c09List(linksE(c09AIds))))
 		}
 	}
 	return h
@@ -607,11 +643,11 @@ func c09Catalogue() []string {
 			cs = append(cs, "EF things "+w(id)+" alias "+c09W(v))
 		}
 		for _, fld := range []string{"owner", "home", "dep", "req"} {
-			for _, v := range append([]string{"~"}, bIds...) {
+			for _, v := range append([]string{"~", "-"}, bIds...) {
 				cs = append(cs, "EF things "+w(id)+" "+fld+" "+c09W(v))
 			}
 		}
-		for _, v := range append([]string{"~"}, aIds...) {
+		for _, v := range append([]string{"~", "-"}, aIds...) {
 			cs = append(cs, "EF things "+w(id)+" boss "+c09W(v))
 		}
 		for _, v := range append(append([]string{}, c09Roles...), "zz") {
@@ -680,8 +716,8 @@ func c09Catalogue() []string {
 }
 
 func c09W(v string) string {
-	if v == "~" {
-		return "~"
+	if v == "~" || v == "-" { // nil, the empty string
+		return v
 	}
 	return toWire(v)
 }
